@@ -14,7 +14,7 @@ import re
 from . import core, gen, trees
 from .core import Finding
 
-OP_BUDGET_S = 5.0
+OP_BUDGET_S = 2.0
 ALPHABET = set("0123456789.abcdefghijklmnopqrstuvwxyzABCDEFGHIJKLMNOPQRSTUVWXYZ+-*/^!=()[] \t\r\n–")
 GOOD = ["4x + 2y", "(7 + 3) * 2", "x^2 - 1 = 0", "-(a + b)", "2xy", "5!"]
 POISON = [")", "^", "=", "!", "*", "1.2.3", "#", "(", "-"]
